@@ -26,7 +26,7 @@ From V Require Import Model.ZMap Model.Quorum Model.Voting Model.VotingRef Model
   Proofs.VotingProofs Proofs.VotingTheorems Proofs.FameBridge Proofs.AdmissionProofs Proofs.BlockInv
   Proofs.OrderProofs Proofs.Static Proofs.FirstDesc Proofs.CInvRun Proofs.SameHistory Proofs.Agreement
   Proofs.NoFail Proofs.AgreementU Proofs.FameInv Proofs.FamousSet Proofs.DecidedFlag Proofs.RoundReceived
-  Proofs.BlockAgree Proofs.AgreementWitness.
+  Proofs.BlockAgree Proofs.AgreementWitness Proofs.WindowWitness.
 Import ListNotations.
 Open Scope Z_scope.
 
@@ -359,6 +359,38 @@ Definition C01_agreement_without_sigkeys_statement : Prop :=
 Theorem C01_agreement_needs_distinct_signatures : ~ C01_agreement_without_sigkeys_statement.
 Proof. exact tw_refuted. Qed.
 Print Assumptions C01_agreement_needs_distinct_signatures.
+
+(* REFUTED without the static-membership premise (no_accept): DYNAMIC MEMBERSHIP BREAKS AGREEMENT.
+   Two nodes fed the same 142 valid, fork-free events (4 validators, one accepted join in the first
+   block, effective at round 1 + 6 = 7) in two topological orders: the fame of the low rounds stalls
+   until round 9 exists, node A has by then divided events into rounds 7..9 with the four-peer set,
+   node B divides some of them after the commit, with the five-peer set; events 114 and 116 get
+   round 9 in A and 8 in B, and the blocks of index 8 (round-received 9) carry different
+   transactions.  Proofs/WindowWitness.v; reproduced on two real cores by harness/cmd/winfork
+   (KNOWN_FINDINGS C01 window-fork).  All other premises of C01_agreement are kept. *)
+Definition C01_agreement_dynamic_statement : Prop :=
+  forall genesis all self1 self2 oracle1 oracle2 ops1 ops2 k d1 d2,
+    ids_determine all -> sigkeys_determine all -> fork_free all ->
+    Forall (hop_ok all) ops1 -> Forall (hop_ok all) ops2 ->
+    let st1 := hrun (init_hg self1 genesis oracle1) ops1 in
+    let st2 := hrun (init_hg self2 genesis oracle2) ops2 in
+    nth_error (delivered st1) k = Some d1 -> nth_error (delivered st2) k = Some d2 -> b_txs d1 = b_txs d2.
+Theorem C01_agreement_dynamic_refuted : ~ C01_agreement_dynamic_statement.
+Proof. exact ww_agreement_refuted. Qed.
+Print Assumptions C01_agreement_dynamic_refuted.
+
+Example C01_dynamic_fork_witness :
+  let sa := hrun (init_hg 0 ww_g []) (map HInsert ww_all) in
+  let sb := hrun (init_hg 1 ww_g []) (map HInsert ww_all') in
+  failed sa = false /\ failed sb = false /\
+  map (fun x => (match get_event sa x with Some e => ev_round e | None => None end,
+                 match get_event sb x with Some e => ev_round e | None => None end)) [114; 116]
+    = [(Some 9, Some 8); (Some 9, Some 8)] /\
+  map (fun b => (b_index b, b_rr b, b_txs b)) (firstn 8 (delivered sa)) = map (fun b => (b_index b, b_rr b, b_txs b)) (firstn 8 (delivered sb)) /\
+  option_map (fun b => (b_index b, b_rr b, b_txs b)) (nth_error (delivered sa) 8) = Some (8, 9, [104; 106; 105; 107; 110; 108; 113]) /\
+  option_map (fun b => (b_index b, b_rr b, b_txs b)) (nth_error (delivered sb) 8)
+    = Some (8, 9, [104; 106; 105; 109; 107; 110; 108; 111; 113; 112; 115]).
+Proof. vm_compute. repeat split; reflexivity. Qed.
 
 (* non-vacuity on the two nodes above: node 1 (17 events) has delivered 6 blocks, node 0 (24 events) 9;
    the six are the first six of the nine *)
